@@ -181,7 +181,6 @@ fn free_stress(ctx: &mut Ctx, prop: &'static str, classes: &'static [&'static st
 
 fn run_c02(ctx: &mut Ctx) {
     let shard = ctx.shard as u64;
-    let shards = ctx.shards as u64;
     let mut r = StdRng::seed_from_u64(ctx.shard_seed());
     let cap = 20_000;
     let mut k = 0u64;
@@ -212,7 +211,10 @@ fn run_c02(ctx: &mut Ctx) {
                         case.requested = req.clone();
                         case.input_style = style;
                         case.threads = threads;
-                        case.mode = if k % 5 == 0 { Mode::InMemoryBuild } else { Mode::Build };
+                        case.mode = if k % 5 == 0 { Mode::InMemoryBuild } else if k % 5 == 2 { Mode::Verify } else { Mode::Build };
+                        if matches!(case.mode, Mode::Verify) {
+                            case.stale = false; // correct outputs are planted: verify must pass under every schedule
+                        }
                         if !dfs_case(ctx, "C02", C02_CLASSES, &case, cap, true, edge_count(mask) > 0) {
                             break 'all;
                         }
@@ -292,8 +294,13 @@ fn digraph_enumeration(ctx: &mut Ctx, prop: &'static str, classes: &'static [&'s
                 }
             }
             selections.push(((0..n).collect(), 4));
-            if ctx.tier == Tier::Thorough {
-                selections.push(((0..n).collect(), 5));
+            selections.push(((0..n).collect(), 5));
+            // verify mode over `after`-only edges with self-consistent outputs on disk (style 9)
+            selections.push(((0..n).collect(), 9));
+            for s in subsets(n) {
+                if s.len() == 1 {
+                    selections.push((s, 9));
+                }
             }
             for (req, style) in selections {
                 let thread_set: &[usize] = if ctx.tier == Tier::Thorough { &[1, 2, 3] } else { &[1, 2] };
@@ -305,10 +312,15 @@ fn digraph_enumeration(ctx: &mut Ctx, prop: &'static str, classes: &'static [&'s
                     let mut case = GraphCase::new(n, mask);
                     case.markers = k % 3 == 1;
                     case.requested = req.clone();
-                    case.input_style = style;
+                    case.input_style = if style == 9 { 0 } else { style };
+                    if style == 9 {
+                        case.mode = Mode::Verify;
+                        case.stale = false;
+                        case.after_only = true;
+                    }
                     case.threads = threads;
-                    case.kinds = if k % 3 == 0 { mask & 0x1_5555_5555 } else { 0 };
-                    case.subdirs = n >= 2 && k % 7 == 0;
+                    case.kinds = if style == 9 { mask } else if k % 3 == 0 { mask & 0x1_5555_5555 } else { 0 };
+                    case.subdirs = n >= 2 && k % 7 == 0 && style != 9;
                     let nontrivial = if cyclic_only_nontrivial { cyclic } else { n >= 2 || style >= 3 };
                     if !dfs_case(ctx, prop, classes, &case, cap, true, nontrivial) {
                         break 'all;
